@@ -107,6 +107,7 @@ func (e *csvEncoder) Encode(writer io.Writer, node *CandidateNode) error {
 
 	csvWriter := csv.NewWriter(writer)
 	csvWriter.Comma = e.separator
+	defer csvWriter.Flush()
 
 	// node must be a sequence
 	if node.Kind != SequenceNode {
